@@ -27,9 +27,11 @@ LICENCES = ["MIT", "0BSD", "GPL-3.0-or-later", "MIT+", "LicenseRef-a.b", "MIT OR
             # the same identifiers in another letter case (identifiers are case-sensitive; values must come back as written)
             "mit", "Mit OR apache-2.0", "licenseref-X OR cc-by-sa-4.0"]
 HOLDERS = ["Jane Doe", "Free Software Foundation Europe e.V.", "Jane Doe <jane@example.com>", "Acme, Inc. <https://acme.example/>", "Müller & Söhne GmbH",
-           "山田太郎", "O'Reilly \"Quoted\" Media", "The foo-bar Authors", "Doe, Jane and contributors", "3M Company", "jane doe (maintainer)", "A"]
+           "山田太郎", "O'Reilly \"Quoted\" Media", "The foo-bar Authors", "Doe, Jane and contributors", "3M Company", "jane doe (maintainer)", "A",
+           # holders whose last letters happen to mirror a word-like comment marker (Fortran 'c', m4 'dnl', batch 'REM')
+           "Acme, Inc", "Marc", "Kindl and", "SUMMER"]
 YEARS = [None, "2020", "2019-2021", "2019 - 2021", "2020,"]
-CONTRIBUTORS = ["Kim Contributor", "Kim <kim@example.com>", "Łukasz Żółć", "K", "Kim (documentation)", "Kim, Lee and Max"]
+CONTRIBUTORS = ["Kim Contributor", "Kim <kim@example.com>", "Łukasz Żółć", "K", "Kim (documentation)", "Kim, Lee and Max", "Eric", "Frantic", "Kindlnd", "HAMMER"]
 COPY_PREFIXES = ["SPDX-FileCopyrightText:", "SPDX-SnippetCopyrightText:", "SPDX-FileCopyrightText: (C)", "SPDX-FileCopyrightText: ©",
                  "SPDX-FileCopyrightText: Copyright", "SPDX-FileCopyrightText: Copyright (C)", "SPDX-FileCopyrightText: Copyright ©",
                  "Copyright", "Copyright (C)", "Copyright (c)", "Copyright ©", "©"]
@@ -183,7 +185,10 @@ def ev_A(c) -> R:
         if kind == "cop":
             exp = ([], [want], [])
         value = want
-        unjudged = ends_in_terminator(value) or (kind != "cop" and dec and value.endswith(dec[::-1]) and deco != "frame")
+        # a value that ends in the mirror image of a *punctuation* line prefix cannot be told from a frame: observed only.
+        # (a prefix made of letters - Fortran 'c', 'dnl', 'REM' - is never a frame)
+        mirrored = bool(dec) and value.endswith(dec[::-1]) and deco != "frame" and not any(ch.isalnum() for ch in dec)
+        unjudged = ends_in_terminator(value) or mirrored
         if unjudged:
             r.notes.append("observed-only: value ends in a terminator / mirrored prefix")
             continue
